@@ -26,4 +26,7 @@ def run(tier: str, seed: int):
         rule = 'n<=5 shapes; n<=4 batch<=3 with bust_cache; n<=2 full cross of placement x dup x types x requests x pre-cache'
         e3c = (list(F.fam_e3(F.fam_shapes(1, 3), workers=(1, 2, None))) + list(F.fam_e3(F.fam_variants(3), workers=(2,), liveness=False))
                + list(F.fam_e3(F.fam_faults(1, 3, max_faults=2, kinds=('died', 'raise'), cofs=(True,)), workers=(1, 2))))
+    if tier != 'quick':
+        x_cf, x_se, x_e3 = F.thorough_extras('C03')
+        cfgs, serial, e3c = list(cfgs) + x_cf, list(serial) + x_se, list(e3c) + x_e3
     return run_e2_property('C03', tier, seed, cfgs, serial_configs=serial, e3_configs=e3c, hash_slices=([('shapes3', 1)] if tier == 'quick' else [('shapes3', 1), ('shapes3', 2), ('shapes4', 1)]), real_cases=list(F.fam_real(F.real_bases('plain'), workers=(2,))), rule=rule, assumptions=ASSUME)
